@@ -19,6 +19,8 @@ from drivers import dav_driver
 from harness import common, tlc
 from harness.tlc import Raw
 
+from . import repotraces
+
 PROP = "C16"
 
 
@@ -119,6 +121,19 @@ def main(tier):
                     n_rel += 1
                     if any(a > b + tol for a, b in zip(E, energies[kc])):
                         rep.violation("rpa_above_cis", {"mols": mols, "rpa": E, "cis": energies[kc]}, method="rpa", reuse=reuse, batch=len(mols), hetero=False, capped=False)
+        repo_info = {"solves": 0}
+        if tier == "thorough":
+            ev, rc, tail = repotraces.record(["tests/unit/test_excited_states.py", "tests/unit/test_md_suite.py", "tests/unit/test_force_methods.py"], scratch, "dav")
+            repo_info["pytest"] = tail
+            if rc != 0:
+                rep.machinery("repository tests failed with hooks on: " + tail)
+            solves = [t for t in repotraces.dav_solves(ev) if not t.get("truncated")]
+            js.append(dict(id="repo-tests", mols=["(repository tests)"], nroots=0, method="cis", tol=0, reuse=False))
+            for n, t in enumerate(solves):
+                t["id"] = "repo#%05d" % n
+                t["job"] = "repo-tests"
+            repo_info["solves"] = len(solves)
+            traces += solves
         # trace validation
         path = os.path.join(scratch, "dav.ndjson")
         comp = [t for t in traces if not t.get("truncated")]
@@ -164,7 +179,7 @@ def main(tier):
         cov = {
             "states": r.distinct + tr.distinct, "transitions": r.generated + tr.generated, "traces_validated_against_impl": len(comp), "traces_accepted": n_acc,
             "samples": [{"job": jobby[t["job"]], "events": t["ev"][:2]} for t in comp[:2]] or [{"note": "none"}],
-            "stagnation_exits_observed": n_stag, "relational_comparisons": n_rel, "jobs": len(js),
+            "stagnation_exits_observed": n_stag, "repository_test_executions": repo_info, "relational_comparisons": n_rel, "jobs": len(js),
             "evaluations": len(js), "distinct_nontrivial": len([j for j in js if j["nroots"] > 1 or len(j["mols"]) > 1 or j["reuse"]]),
             "rule": "jobs molecule/batch x number of roots x tolerance x amplitude reuse x CIS/RPA; non-trivial = several roots, a batch or amplitude reuse", "exhaustive": tier == "thorough",
         }
